@@ -77,7 +77,23 @@ def run(ck, w):
     else:
         lch = [e for e in so_b.events if e.bb in so_b.live and re.search(r"::l?chown$|fchownat$", e.name)]
         oks_ = [bb for bb, j, s_ in rules.agg_sites(so_b, "std::result::Result", "Ok") if s_["pl"]["l"] == 0]
-        if not lch or not oks_:
+        if not lch:
+            # the call may sit in a private helper / method of a private type that was not dissolved (closure, trait impl)
+            for fb_ in lib.family("owner::unix::set_owner"):
+                lch += [e for e in fb_.events if e.bb in fb_.live and re.search(r"::l?chown$|fchownat$", e.name) and fb_ is so_b]
+        if lch and not oks_:
+            # no explicit `Ok(..)`: the result of a combinator chain is returned. Then every return that is not an
+            # explicit failure must follow the lchown call
+            errs_ = {bb for bb, j, s_ in rules.agg_sites(so_b, "std::result::Result", "Err") if s_["pl"]["l"] == 0}
+            errs_ |= {e.bb for e in so_b.events if e.bb in so_b.live and e.name.endswith("::from_residual") and e.dest and e.dest["l"] == 0}
+            reach_ = so_b.reachable(0, removed_nodes={e.bb for e in lch} | errs_)
+            early = [bb for bb in so_b.return_blocks() if bb in reach_]
+            if early:
+                ck.fail(o, so_b.name, "Ok returned without calling lchown", "set_owner can return without applying the ids it resolved: %s" %
+                        rules.witness(so_b, early[0], removed_nodes={e.bb for e in lch} | errs_), "%s:bb%d" % (so_b.file, early[0]))
+            else:
+                ck.ok(o, "every non-failure return follows lchown", sites=[lch[0].site()])
+        elif not lch or not oks_:
             ck.fail(o, so_b.name, "anchor-missing", "lchown events=%d Ok returns=%d" % (len(lch), len(oks_)))
         else:
             early = [bb for bb in oks_ if not so_b.must_pass_nodes({e.bb for e in lch}, bb)]
@@ -726,13 +742,24 @@ def _walk_does_not_follow(ck, w):
     # directories to descend into are chosen from the no-follow file type
     vd = w.raw("source::Iter::visit_next_directory")
     o = ck.ob("C01.9b", "a child is queued for descent only if its no-follow file type is a directory")
+    # the per-child work may sit in a closure of the function (`.filter_map(|de| ..)`): take the body that holds the test
+    for fb_ in lib.family("source::Iter::visit_next_directory"):
+        if any(e.bb in fb_.live and e.name == "std::fs::FileType::is_dir" for e in fb_.events):
+            vd = fb_
+            break
     pushes = [e for e in vd.events if e.bb in vd.live and e.name.endswith("Vec::<T, A>::push")]
     sub = []
     for e in pushes:
         l = flow.operand_local(e.args[0])
+        named = False
         for (bb, idx, kind, payload) in vd.defs.get(l, []):
             if kind == "assign" and payload["rv"]["rk"] == "ref" and vd.local_names.get(payload["rv"]["pl"]["l"]) == "subdir_apaths":
-                sub.append(e)
+                named = True
+        if not named and "Vec<apath::Apath>" in (vd.locals[l] or "") and \
+                any(x[0] in ("upvar", "param") and (x[1] == "subdir_apaths" or "subdir_apaths" in x[2]) for x in flow.origins_x(lib, vd, e.args[0])):
+            named = True
+        if named:
+            sub.append(e)
     isd = [e for e in vd.events if e.bb in vd.live and e.name == "std::fs::FileType::is_dir"]
     good = bool(sub) and bool(isd)
     if good:
